@@ -1076,10 +1076,22 @@ def gen_e2e09_fit(rng, tier):
             "zero_mean": rng.random() < 0.3,
             # Box-Cox target transform incl. the lambda = 0 (log) corner and values next to it
             "boxcox": rng.choice([None, None, None, "0", "0", "0.5", "-0.3", "5e-8", "random"]),
-            "verbose": rng.random() < 0.25}
+            "verbose": rng.random() < 0.25, "at_init": rng.random() < 0.25}
+
+
+class _NotANumber(Exception):
+    pass
 
 
 def run_e2e09_fit(spec):
+    try:
+        return _run_e2e09_fit(spec)
+    except _NotANumber as e:
+        return {"lines": [], "monitor": [F("c09:criterion-not-a-number", str(e), {"spec": spec})],
+                "meta": {"hist": {"e2e09_fit": 1}, "nontrivial": True, "dev": {}}}
+
+
+def _run_e2e09_fit(spec):
     """gradient of the fitting criterion (neg. log marginal likelihood + hyperpriors) w.r.t. every
     internal parameter, from the real `create_lbfgs_arguments` objective"""
     rng = random.Random(spec["seed"])
@@ -1106,7 +1118,14 @@ def run_e2e09_fit(spec):
             hist["fit_start_called"] = 1
         except Exception:  # noqa
             hist["fit_start_raised"] = 1
-    conv, vec = randomize_params(rng, lik, noise_lo=1e-3, noise_hi=1.0, span=1.5)
+    if spec.get("at_init"):
+        # the initial parameter vector (where every fit starts: warping powers exactly 1, default bandwidths, ...)
+        _, pd_i = create_lbfgs_arguments(lik, [data])
+        conv = ParamVecDictConverter(pd_i)
+        vec = np.asarray(conv.to_vec(), dtype=float)
+        hist["fit_at_initial_parameters"] = 1
+    else:
+        conv, vec = randomize_params(rng, lik, noise_lo=1e-3, noise_hi=1.0, span=1.5)
     if bc is not None and bc != "random":
         tt.set_boxcox_lambda(float(bc))
         _, pd0 = create_lbfgs_arguments(lik, [data])
@@ -1115,7 +1134,11 @@ def run_e2e09_fit(spec):
     hist["fit_verbose:" + str(bool(spec.get("verbose")))] = 1
     conv = ParamVecDictConverter(pd)
     def scalar(z):
-        return float(np.asarray(z, dtype=float).reshape(-1)[0])
+        try:
+            return float(np.asarray(z, dtype=float).reshape(-1)[0])
+        except (TypeError, ValueError):
+            # e.g. an autograd box of an earlier, finished trace left in a parameter
+            raise _NotANumber(f"the criterion is not a number but {type(z).__name__}: {str(z)[:120]}")
 
     val, grad = obj(vec.copy())
     val, grad = scalar(val), np.asarray(grad, dtype=float)
@@ -1133,6 +1156,24 @@ def run_e2e09_fit(spec):
             mon.append(F("c09:fit-gradient-not-derivative",
                          f"d criterion / d {name} = {grad[i]:.10g} from autograd, {r:.10g} by Richardson central differences "
                          f"(error estimate {err:.2e}, model {kind}, n={n})", {"spec": spec, "index": i}))
+    # the optimiser evaluates ONE objective many times in a row, at points that often differ in a few coordinates only: value and
+    # gradient are functions of the point, not of what was evaluated before (reference: a freshly created objective)
+    if len(vec):
+        x1 = vec.copy()
+        j1 = rng.randrange(len(vec))
+        x1[j1] += rng.choice([-0.07, 0.05, 0.11])
+        v_again, g_again = obj(x1.copy())
+        obj_fresh, _pd = create_lbfgs_arguments(lik, [data])
+        v_fresh, g_fresh = obj_fresh(x1.copy())
+        g_again, g_fresh = np.asarray(g_again, dtype=float), np.asarray(g_fresh, dtype=float)
+        hist["fit_objective_reused"] = 1
+        if not close([scalar(v_again)], [scalar(v_fresh)], 1e-9) or not close(g_again, g_fresh, 1e-8):
+            bad = int(np.argmax(np.abs(g_again - g_fresh)))
+            name = [nm for nm, ix in conv.name_to_index.items() if bad in ix]
+            mon.append(F("c09:fit-gradient-depends-on-history",
+                         f"the objective evaluated at a second point (coordinate {j1} moved) returns d criterion / d {name} = {g_again[bad]:.10g}, "
+                         f"a freshly created objective returns {g_fresh[bad]:.10g} at the same point (values {scalar(v_again):.10g} / "
+                         f"{scalar(v_fresh):.10g})", {"spec": spec}))
     # value returned with the gradient equals the value alone
     from syne_tune.optimizer.schedulers.searchers.bayesopt.gpautograd.optimization_utils import add_regularizer_to_criterion
     conv.from_vec(vec.copy())
